@@ -177,7 +177,7 @@ func ruleSetOrder(c *Ctx, r *Report) {
 // ---- C14: pruneBranchesInternal ---------------------------------------------------
 
 func rulePrune(c *Ctx, r *Report) {
-	r.Rule("R-PRUNE", "in pruneBranchesInternal the all-children-pruned flag only ever goes from true to false; every Set writes a zero value into a struct-pointer (or empty ordered-map) field and is conditional on emptiness; leaf fields are compared with the zero value of their type; ordered maps are recognised before struct pointers are dereferenced", 6)
+	r.Rule("R-PRUNE", "in pruneBranchesInternal the all-children-pruned flag only ever goes from true to false; every Set writes a zero value into a struct-pointer (or empty ordered-map) field and is conditional on emptiness; leaf fields are compared with the zero value of their type; ordered maps are recognised before struct pointers are dereferenced", 11)
 	f := c.MustFunc(r, "ygot", "pruneBranchesInternal")
 	if f == nil {
 		return
@@ -220,6 +220,65 @@ func rulePrune(c *Ctx, r *Report) {
 		if bad == 0 {
 			r.OK("ygot.pruneBranchesInternal:flag-monotone", c.Pos(f.Decl.Pos()), fmt.Sprintf("%d assignments, all `= false`", n))
 		}
+		// every `flag = false` has a witness that the field keeps data: a non-zero length, a child that
+		// was not pruned, a non-zero leaf, or (outside the ordered-map block only) a non-nil pointer leaf.
+		k := 0
+		ast.Inspect(f.Decl.Body, func(x ast.Node) bool {
+			as, ok := x.(*ast.AssignStmt)
+			if !ok || len(as.Lhs) != 1 || ObjOf(info, as.Lhs[0]) != flag || as.Tok == token.DEFINE {
+				return true
+			}
+			k++
+			inOM := false
+			witness := ""
+			for _, ft := range c.FactsAt(f, as, false) {
+				if ft.Kind != "cond" {
+					continue
+				}
+				e := ast.Unparen(ft.Cond)
+				if id, ok := e.(*ast.Ident); ok {
+					obj := info.ObjectOf(id)
+					ast.Inspect(f.Decl.Body, func(m ast.Node) bool {
+						a2, ok := m.(*ast.AssignStmt)
+						if !ok || len(a2.Rhs) != 1 {
+							return true
+						}
+						if len(a2.Lhs) == 2 && ObjOf(info, a2.Lhs[1]) == obj && ft.Pos {
+							if ta, ok := a2.Rhs[0].(*ast.TypeAssertExpr); ok && strings.HasSuffix(typeName(info, ta.Type), "GoOrderedMap") {
+								inOM = true
+							}
+						}
+						if len(a2.Lhs) == 1 && ObjOf(info, a2.Lhs[0]) == obj && !ft.Pos && IsCall(info, a2.Rhs[0], P("ygot")+".pruneBranchesInternal") {
+							witness = "child not pruned"
+						}
+						return true
+					})
+					continue
+				}
+				if be, ok := e.(*ast.BinaryExpr); ok {
+					isLen := strings.HasSuffix(types.ExprString(be.X), ".Len()")
+					zero, _ := ConstOf(info, be.Y)
+					if isLen && zero == "0" && ((be.Op == token.NEQ && ft.Pos) || (be.Op == token.EQL && !ft.Pos) || (be.Op == token.GTR && ft.Pos)) {
+						witness = "non-zero length"
+					}
+				}
+				if call, ok := e.(*ast.CallExpr); ok {
+					fn := FullName(Callee(info, call))
+					if fn == "reflect.DeepEqual" && !ft.Pos {
+						witness = "non-zero leaf"
+					}
+					if fn == "reflect.Value.IsNil" && !ft.Pos && witness == "" {
+						witness = "non-nil pointer"
+					}
+				}
+			}
+			if inOM && witness == "non-nil pointer" {
+				witness = "" // a non-nil ordered map may still be empty (and is then pruned itself)
+			}
+			r.Check(witness != "", fmt.Sprintf("ygot.pruneBranchesInternal:keeps-parent#%d", k), c.Pos(as.Pos()), "the flag is cleared only with a witness that the field keeps data: "+witness,
+				"pruneBranchesInternal marks the parent as non-empty for a field that is not known to keep data (e.g. a non-nil but empty ordered list, which is itself set to nil): the empty container survives the first call and disappears on the second")
+			return true
+		})
 	}
 	// every Set writes reflect.Zero(..) and is guarded.
 	ns := 0
@@ -302,7 +361,7 @@ func rulePrune(c *Ctx, r *Report) {
 // ---- C17 / C01: enums ----------------------------------------------------------
 
 func ruleEnumLib(c *Ctx, r *Report) {
-	r.Rule("R-ENUM-LIB", "enumFieldToString treats exactly the value 0 as UNSET, every name it returns comes from a successful lookup and an unknown value is an error; castToEnumValue consults the type's own ΛMap on every call (no cache keyed by bare type name) and compares names with the module prefix stripped on both sides", 5)
+	r.Rule("R-ENUM-LIB", "enumFieldToString treats exactly the value 0 as UNSET, every name it returns comes from a successful lookup and an unknown value is an error; castToEnumValue consults the type's own ΛMap on every call (no cache keyed by bare type name) and compares names exactly first, then with the module prefix stripped on both sides", 7)
 	if f := c.MustFunc(r, "ygot", "enumFieldToString"); f != nil {
 		info := f.Info()
 		// unset test
@@ -335,7 +394,7 @@ func ruleEnumLib(c *Ctx, r *Report) {
 			cnt := 0
 			for _, ft := range facts {
 				if ft.Kind == "cond" && ft.Pos {
-					if id, ok := ast.Unparen(ft.Cond).(*ast.Ident); ok && id.Name != "" && info.ObjectOf(id) != nil && info.ObjectOf(id).Type().String() == "bool" {
+					if id, ok := ast.Unparen(ft.Cond).(*ast.Ident); ok && boundByMapCommaOk(f, info.ObjectOf(id)) {
 						cnt++
 					}
 				}
@@ -346,6 +405,33 @@ func ruleEnumLib(c *Ctx, r *Report) {
 			return true
 		})
 		r.Check(okCount >= 1, "ygot.enumFieldToString:name⇐successful-lookups", c.Pos(f.Decl.Pos()), "a name is returned only after the type and the value were found in ΛMap", "a name can be returned without both ΛMap lookups having succeeded")
+		// the UNSET test dominates every ΛMap lookup: 0 is never looked up, so it is never rendered
+		// even for a type whose map (wrongly) has an entry for 0.
+		dom := true
+		nl := 0
+		ast.Inspect(f.Decl.Body, func(n ast.Node) bool {
+			ix, ok := n.(*ast.IndexExpr)
+			if !ok {
+				return true
+			}
+			if _, isMap := info.Types[ix.X].Type.Underlying().(*types.Map); !isMap {
+				return true
+			}
+			nl++
+			zeroExcluded := false
+			for _, ft := range c.FactsAt(f, ix, false) {
+				if ft.Kind == "cond" && !ft.Pos {
+					if be, ok := ast.Unparen(ft.Cond).(*ast.BinaryExpr); ok && be.Op == token.EQL && constName(info, be.Y) == "0" && IsCall(info, be.X, "reflect.Value.Int") {
+						zeroExcluded = true
+					}
+				}
+			}
+			if !zeroExcluded {
+				dom = false
+			}
+			return true
+		})
+		r.Check(dom && nl >= 2, "ygot.enumFieldToString:unset-before-lookup", c.Pos(f.Decl.Pos()), "value 0 returns UNSET before any lookup", "enumFieldToString looks the value up before (or without) excluding 0: for a type whose ΛMap has an entry for 0 the zero (UNSET) value is rendered")
 	}
 	if f := c.MustFunc(r, "ytypes", "castToEnumValue"); f != nil {
 		info := f.Info()
@@ -382,6 +468,22 @@ func ruleEnumLib(c *Ctx, r *Report) {
 			}
 			return true
 		})
+		// (d) an exact comparison of the whole name is tried in a loop that precedes the stripped one.
+		var exactPos, stripPos token.Pos
+		ast.Inspect(f.Decl.Body, func(n ast.Node) bool {
+			be, ok := n.(*ast.BinaryExpr)
+			if !ok || be.Op != token.EQL || c.EnclosingLoop(f, be) == nil {
+				return true
+			}
+			if IsCall(info, be.X, P("util")+".StripModulePrefix") && stripPos == token.NoPos {
+				stripPos = be.Pos()
+			}
+			if sel, ok := ast.Unparen(be.X).(*ast.SelectorExpr); ok && sel.Sel.Name == "Name" && paramIndex(f, ObjOf(info, be.Y)) == 1 && exactPos == token.NoPos {
+				exactPos = be.Pos()
+			}
+			return true
+		})
+		r.Check(exactPos != token.NoPos && stripPos != token.NoPos && exactPos < stripPos, "ytypes.castToEnumValue:exact-before-stripped", c.Pos(f.Decl.Pos()), "an exact name match is tried before the prefix-insensitive comparison", "castToEnumValue compares names only modulo a module-prefix-like part: enum names that themselves contain a colon and differ only before it (ipv4:unicast, ipv6:unicast) collide and the parsed value depends on map iteration order")
 		r.Check(strip, "ytypes.castToEnumValue:strip-prefix-both-sides", c.Pos(f.Decl.Pos()), "names compared modulo module prefix", "the name comparison in castToEnumValue no longer strips the module prefix on both sides: 'module:NAME' (what AppendModuleName renders) is not parsed back for every caller (unions, keys)")
 	}
 }
@@ -831,4 +933,126 @@ func factHasBinaryName(c *Ctx, f *FuncInfo, n ast.Node) bool {
 		}
 	}
 	return false
+}
+
+// ruleEmptyExact: the Yempty arm of sanitizeJSON accepts exactly [null].
+func ruleEmptyExact(c *Ctx, r *Report) {
+	r.Rule("R-EMPTY-EXACT", "sanitizeJSON accepts an empty leaf only for a JSON array that is checked (comma-ok) to be an array, of length exactly 1, whose only element is null", 1)
+	f := c.MustFunc(r, "ytypes", "sanitizeJSON")
+	if f == nil {
+		return
+	}
+	info := f.Info()
+	sws := KindSwitches(f, yangKind)
+	if len(sws) == 0 || sws[0].ByKey["yang.Yempty"] == nil {
+		r.Und("ytypes.sanitizeJSON:yang.Yempty", c.Pos(f.Decl.Pos()), "Yempty arm not found")
+		return
+	}
+	a := sws[0].ByKey["yang.Yempty"]
+	ok := false
+	for _, rs := range returnsOf(a.Node) {
+		if len(rs.Results) != 2 || !isNilConst(info, rs.Results[1]) {
+			continue
+		}
+		lenOne, nullElem, commaOk := false, false, false
+		for _, ft := range c.FactsAt(f, rs, false) {
+			if ft.Kind != "cond" {
+				continue
+			}
+			e := ast.Unparen(ft.Cond)
+			if u, isU := e.(*ast.UnaryExpr); isU && u.Op == token.NOT && !ft.Pos {
+				if id, isID := ast.Unparen(u.X).(*ast.Ident); isID && info.ObjectOf(id) != nil && info.ObjectOf(id).Type().String() == "bool" {
+					commaOk = true
+				}
+			}
+			if id, isID := e.(*ast.Ident); isID && ft.Pos && info.ObjectOf(id) != nil && info.ObjectOf(id).Type().String() == "bool" {
+				commaOk = true
+			}
+			be, isBE := e.(*ast.BinaryExpr)
+			if !isBE {
+				continue
+			}
+			if strings.HasPrefix(types.ExprString(be.X), "len(") {
+				if v, isC := ConstOf(info, be.Y); isC && v == "1" && ((be.Op == token.NEQ && !ft.Pos) || (be.Op == token.EQL && ft.Pos)) {
+					lenOne = true
+				}
+			}
+			if isNilConst(info, be.Y) && ((be.Op == token.NEQ && !ft.Pos) || (be.Op == token.EQL && ft.Pos)) {
+				if _, isIx := ast.Unparen(be.X).(*ast.IndexExpr); isIx {
+					nullElem = true
+				}
+			}
+		}
+		if lenOne && nullElem && commaOk {
+			ok = true
+		}
+	}
+	r.Check(ok, "ytypes.sanitizeJSON:yang.Yempty:exactly-[null]", c.Pos(a.Node.Pos()), "array (comma-ok) ∧ len == 1 ∧ element == nil", "the empty-leaf arm of sanitizeJSON does not require a checked array of length exactly 1 holding null: values such as [null, 1] are accepted as a set empty leaf (or a non-array panics)")
+}
+
+// ruleWideKinds: R-WIDE-KINDS — every "64-bit wide" kind set in ygot/render.go equals the set writeIETFScalarJSON stringifies.
+func ruleWideKinds(c *Ctx, r *Report) {
+	r.Rule("R-WIDE-KINDS", "wherever ygot/render.go singles out the kinds that RFC 7951 encodes as strings, the set is the one writeIETFScalarJSON stringifies (int64, uint64, decimal64/float64): a dispatch that names Int64/Uint64 but not Float64 leaves decimal64 values as JSON numbers on that path", 1)
+	w := c.MustFunc(r, "ygot", "writeIETFScalarJSON")
+	if w == nil {
+		return
+	}
+	wide := map[string]bool{}
+	for _, sw := range KindSwitches(w, reflectKind) {
+		for _, a := range sw.Arms {
+			if !a.Deflt {
+				for _, k := range a.Keys {
+					wide[k] = true
+				}
+			}
+		}
+	}
+	if !wide["reflect.Int64"] || !wide["reflect.Uint64"] {
+		r.Und("ygot.writeIETFScalarJSON:wide-set", c.Pos(w.Decl.Pos()), "stringified kind set not recognised")
+		return
+	}
+	r.OK("ygot.writeIETFScalarJSON:wide-set", c.Pos(w.Decl.Pos()), "stringified kinds: "+strings.Join(keysOf(wide), ", "))
+	narrow := map[string]bool{"reflect.Int": true, "reflect.Int8": true, "reflect.Int16": true, "reflect.Int32": true, "reflect.Uint": true, "reflect.Uint8": true, "reflect.Uint16": true, "reflect.Uint32": true}
+	for _, f := range c.funcsInScope(func(s string) bool { return s == "ygot/render.go" }, libPkgs) {
+		if f.Name == "ygot.writeIETFScalarJSON" {
+			continue
+		}
+		for ti, sw := range KindSwitches(f, reflectKind) {
+			// an arm that names BOTH 64-bit integer kinds and no narrower one singles out the wide kinds;
+			// per-kind dispatches (one arm per kind) are not this pattern.
+			named := map[string]bool{}
+			var pos token.Pos
+			singled := false
+			for _, a := range sw.Arms {
+				has := map[string]bool{}
+				hasNarrow := false
+				for _, k := range a.Keys {
+					has[k] = true
+					if narrow[k] {
+						hasNarrow = true
+					}
+				}
+				if has["reflect.Int64"] && has["reflect.Uint64"] && !hasNarrow {
+					singled = true
+					pos = a.Node.Pos()
+				}
+				if !hasNarrow {
+					for _, k := range a.Keys {
+						named[k] = true
+					}
+				}
+			}
+			if !singled {
+				continue
+			}
+			miss := ""
+			for k := range wide {
+				if !named[k] {
+					miss = k
+				}
+			}
+			r.Check(miss == "", fmt.Sprintf("%s:kind-switch#%d:wide-set", f.Name, ti+1), c.Pos(pos), "names all of "+strings.Join(keysOf(wide), ", "),
+				f.Name+" singles out 64-bit integer kinds but not "+miss+": values of that kind skip the RFC 7951 string encoding on this path (e.g. a decimal64 leaf-list is emitted as JSON numbers)")
+		}
+	}
 }
